@@ -29,7 +29,7 @@ for pid in sorted(os.listdir("/verif/seeded_pending")):
         meta = json.load(open(f"{d}/meta.json"))
         tgt = meta.get("demo_target_dir", ".") or "."
         demo_dst = os.path.join(WT, tgt, "zz_demo_test.go")
-        race = "-race" if "-race" in json.dumps(meta) and pid == "C06" else ""
+        race = "-race" if "-race" in json.dumps(meta.get("ran", "")) else ""
         clean()
         ran = []
         shutil.copy(f"{d}/demo_test.go", demo_dst)
